@@ -24,6 +24,9 @@ G_Riemann  == {<<"L", "shock", "Ls">>, <<"L", "cont", "fanL">>, <<"fanL", "cont"
                <<"Ls", "contact", "Rs">>,
                <<"Rs", "shock", "R">>, <<"Rs", "cont", "fanR">>, <<"fanR", "cont", "R">>}
 R_Riemann  == {"L", "fanL", "Ls", "Rs", "fanR", "R"}
+(* 2-D steady problem, sweep in polar angle from the bottom state to the top state *)
+G_Riemann2D == {<<"B", "shock", "Bs">>, <<"B", "cont", "fanB">>, <<"fanB", "cont", "Bs">>, <<"Bs", "slip", "Ts">>,
+                <<"Ts", "shock", "T">>, <<"Ts", "cont", "fanT">>, <<"fanT", "cont", "T">>}
 
 (* final: regions in which a complete scan may end ({} = anywhere) *)
 RowF(eos, pde, res, regs, gram, vac, fin) ==
@@ -31,7 +34,7 @@ RowF(eos, pde, res, regs, gram, vac, fin) ==
 Row(eos, pde, res, regs, gram, vac) == RowF(eos, pde, res, regs, gram, vac, {})
 
 (* which side's gamma applies in a region of a two-gamma problem *)
-SideOf(reg) == IF reg \in {"L", "fanL", "Ls"} THEN "l" ELSE "r"
+SideOf(reg) == IF reg \in {"L", "fanL", "Ls", "B", "fanB", "Bs"} THEN "l" ELSE "r"
 (* direction of variation with increasing x inside a rarefaction fan:   *)
 (* +1 increasing, -1 decreasing (pressure and density fall towards the  *)
 (* star state; velocity rises across both fans of an expansion)         *)
@@ -57,7 +60,7 @@ R_EHEP == {"00", "I", "II", "III", "IV", "V", "0H", "0V", "None"}
 G_EHEP == {<<a, "cont", b>> : a \in R_EHEP \ {"0H", "00"}, b \in R_EHEP \ {"0H", "00"}}
           \cup {<<a, "detonation", "0H">> : a \in {"I", "III", "IV", "V"}}
           \cup {<<"00", "piston", b>> : b \in {"I", "II", "III", "IV", "V"}} \cup {<<"0H", "interface", "0V">>}
-Families == {"Noh", "Noh2", "Noh2Cog", "Sedov", "EPpiston", "EHEP", "Mader"} \cup {"Blake", "SuOlson", "RadShock"} \cup BurnFams \cup RiemannFams \cup PlainFams \cup CogNone \cup CogDiv \cup CogFull \cup CogShock
+Families == {"Noh", "Noh2", "Noh2Cog", "Sedov", "EPpiston", "EHEP", "Mader"} \cup {"Blake", "SuOlson", "RadShock", "Riemann2D"} \cup BurnFams \cup RiemannFams \cup PlainFams \cup CogNone \cup CogDiv \cup CogFull \cup CogShock
 
 Cat == [f \in Families |->
   CASE f = "Noh"        -> Row("gamma", "euler",   "closed", {"post", "pre"}, G_PostPre, FALSE)
@@ -67,6 +70,7 @@ Cat == [f \in Families |->
     [] f = "EPpiston"   -> RowF("additive", "none", "closed", {"plastic", "elastic", "rest"}, G_Piston, FALSE, {"rest"})
     [] f = "EHEP"       -> RowF("gamma", "euler", "ehep", R_EHEP, G_EHEP, TRUE, {})
     [] f = "Mader"      -> RowF("cjisentrope", "none", "table", {"mader"}, G_Smooth, FALSE, {})
+    [] f = "Riemann2D"  -> RowF("gamma2", "none", "root", {"B", "fanB", "Bs", "Ts", "fanT", "T"}, G_Riemann2D, FALSE, {"T"})
     [] f = "RadShock"   -> RowF("radshock", "none", "ode", {"all"}, G_Smooth, FALSE, {})
     [] f = "SuOlson"    -> RowF("suolson", "none", "root", {"all"}, G_Smooth, FALSE, {})
     [] f = "Blake"      -> RowF("none", "none", "closed", {"he"}, G_Smooth, FALSE, {})
@@ -111,6 +115,7 @@ FieldLaws(f) ==
                                   "pressure", "dev_rr", "dev_qq", "stress_diff", "cavity", "zero-ahead"}, ineq |-> {}]
     [] f \in {"Rod1D", "RodNH", "Sandwich", "Hutchens1", "Hutchens2", "Rectangle", "CylSandwich"}
                       -> [eq |-> {"heat", "bc-left", "bc-right", "bc-bottom", "bc-top", "bc-surface", "initial", "steady", "regular"}, ineq |-> {}]
+    [] f = "Riemann2D" -> [eq |-> {"speed2=u2+v2", "mach=speed/c", "fan.turning=nu(M2)-nu(M1)", "fan.isentropic", "fan.total-enthalpy"}, ineq |-> {}]
     [] f = "RadShock" -> [eq |-> {"mass-flux", "momentum-flux", "energy-flux", "upstream.rho", "upstream.T", "upstream.mach", "upstream.equilibrium",
                                   "downstream.equilibrium"} \cup {"steady." \o n : n \in {"temperature", "temperature_mat", "temperature_rad", "density", "velocity",
                                   "pressure", "specific_internal_energy", "rade", "sound_speed"}}, ineq |-> {}]
